@@ -296,6 +296,7 @@ def run(ck, facts, tier):
     sites = []
     for f in sorted(fns, key=lambda x: x.id):
         sites += panics.sites_of(f)
+    panics.controls(ck, "R12.2")
     panics.classify(facts, sites, TABLE)
     for s in sites:
         if s.kind == "validator-call":
